@@ -148,6 +148,19 @@ def make_variant(v):
                 idx = sorted(rng2.sample(range(n), rng2.randint(1, min(2, n))))
                 d["declared_levels"][b["name"]] = {"levels": idx, "where": rng2.choice(["first", "last"]),
                                                   "version": rng2.random() < 0.3}
+    rng3 = random.Random(derive(22, "variant-typenames", v))
+    if rng3.random() < 0.3:
+        # type names with digits and upper case inside ('shot2__h264_file'): a type name is an identifier, not a word
+        chosen.append("digits_in_type_names")
+        for ftx in d["file_types"]:
+            if ftx[0] == "movie_file":
+                ftx[0] = "h264_file"
+        b = rng3.choice(d["basetypes"])
+        old_name = b["name"]
+        b["name"] = old_name + "2"
+        d["out"][b["name"]] = d["out"].pop(old_name)
+        if d.get("declared_levels") and old_name in d["declared_levels"]:
+            d["declared_levels"][b["name"]] = d["declared_levels"].pop(old_name)
     if rng2.random() < 0.3:
         # a type-specific path mapping next to the global one ("specific path mapping by type"): one file type names the
         # state folders / name parts its own way; one-to-one like every other mapping
